@@ -302,16 +302,19 @@ def run_property(prop, tier, verif_seed, budget_s=None, n_runs=None, workers=Non
             else:
                 by_class.setdefault(v["cls"], (r, v))
     reported = []
-    for cls, (r, v) in sorted(by_class.items()):
+    max_classes = int(os.environ.get("VERIF_MAX_CLASSES", "8"))
+    skipped_classes = sorted(by_class)[max_classes:]
+    shrink_exec = lambda: int(os.environ.get("VERIF_SHRINK_EXEC", "0")) or getattr(mod, "SHRINK_EXEC", 300)   # noqa: E731
+    for cls, (r, v) in sorted(by_class.items())[:max_classes]:
         try:
             intermittent = False
             try:
-                small, v2, dig, used = minimise(mod, r["case"], cls, getattr(mod, "SHRINK_EXEC", 300))
+                small, v2, dig, used = minimise(mod, r["case"], cls, shrink_exec())
             except kernel.HarnessError:
                 # does it recur at all? (see write_replay: intermittent = nondeterministic system under test)
                 intermittent = True
                 try:
-                    small, v2, dig, used = minimise(mod, r["case"], cls, getattr(mod, "SHRINK_EXEC", 300), tries=4)
+                    small, v2, dig, used = minimise(mod, r["case"], cls, shrink_exec(), tries=4)
                 except kernel.HarnessError:
                     # too rare to minimise: keep the case as it was observed (the replay tries it many times)
                     small, v2, dig, used = r["case"], v, r["digest"], 0
@@ -392,6 +395,9 @@ def run_property(prop, tier, verif_seed, budget_s=None, n_runs=None, workers=Non
     for cls, path, used, v in reported:
         print("violation class: %s (minimised with %d executions)" % (cls, used))
         print("VIOLATION property=%s replay=%s" % (prop, path))
+    if skipped_classes:
+        print("%d further violation classes were found and not minimised (VERIF_MAX_CLASSES=%d): %s"
+              % (len(skipped_classes), max_classes, "; ".join(skipped_classes[:12])))
     if harness_errors:
         for h in harness_errors[:5]:
             print("HARNESS-ERROR %s" % h)
